@@ -116,6 +116,14 @@ Definition case_whist (l : list Z) : list Z :=
                 | Some ss => let '(r, w) := run_write_shapes hs w0 ss in
                              1 :: r_unit_res r ++ r_world w
                 end
+              else if 3 <=? ending then
+                (* the last (ending - 3) calls, all writes, are handed together to `write_shapes` *)
+                let k := (length cs - Z.to_nat (ending - 3))%nat in
+                match shapes_of_calls (skipn k cs) with
+                | None => [-1]
+                | Some tail => let '(rs, w) := run_history_bulk hs w0 (firstn k cs) tail in
+                               zlen rs :: flat_map r_unit_res rs ++ r_world w
+                end
               else
                 let '(rs, w) := run_history hs w0 cs (if ending =? 1 then EFinalizeDrop else EDrop) in
                 zlen rs :: flat_map r_unit_res rs ++ r_world w
@@ -134,7 +142,8 @@ Definition case_whist (l : list Z) : list Z :=
     5 k j (iterator adaptors: skip k, take j >= 1, collected) |
     6 (`read_as` / `read`: everything that is left, stopping at the first error;
        consumes the reader, so only as the last call). *)
-Inductive rop := OIter (j : Z) | ONth (i : Z) | OSeek (k : Z) | OCount | OHint | OSkipTake (k j : Z) | OReadAll.
+Inductive rop := OIter (j : Z) | ONth (i : Z) | OSeek (k : Z) | OCount | OHint | OSkipTake (k j : Z) | OReadAll
+  | OProbe (req : option shape_type) (i : Z).   (* read_nth_shape_as::<T>(i) whatever the other calls request *)
 
 Definition p_rop : parser rop :=
   k <- p_next ;;
@@ -145,6 +154,11 @@ Definition p_rop : parser rop :=
   else if k =? 4 then p_ret OHint
   else if k =? 5 then a <- p_next ;; b <- p_next ;; p_ret (OSkipTake a b)
   else if k =? 6 then p_ret OReadAll
+  else if k =? 7 then t <- p_next ;; i <- p_next ;;
+                      match (if t =? -1 then Some None else match st_decode t with Some TNull => None | Some x => Some (Some x) | None => None end) with
+                      | Some r => if i <? 0 then p_fail else p_ret (OProbe r i)
+                      | None => p_fail
+                      end
   else p_fail.
 
 Definition r_header (h : header) : list Z :=
@@ -168,6 +182,19 @@ Definition rcall_of (cap : nat) (o : rop) : rcall :=
   | OSkipTake k j => RIter (Z.to_nat k + Z.to_nat j)
   (* `collect::<Result<Vec<_>, _>>()` pulls until the iteration ends or an item is an error *)
   | OReadAll => RIter cap
+  | OProbe _ i => RNth i
+  end.
+
+Definition req_of (req : option shape_type) (o : rop) : option shape_type :=
+  match o with OProbe r _ => r | _ => req end.
+
+(** The calls one by one, each with the type it requests (the type of the
+    history, except for probes). *)
+Fixpoint r_calls_mixed (cap : nat) (req : option shape_type) (st : rstate) (os : list rop) : prog (list rout * rstate) :=
+  match os with
+  | [] => Ret ([], st)
+  | o :: r => x <-- r_call (req_of req o) st (rcall_of cap o) ;; y <-- r_calls_mixed cap req (snd x) r ;;
+              Ret (fst x :: fst y, snd y)
   end.
 
 Definition r_rout (o : rout) : list Z :=
@@ -196,8 +223,9 @@ Definition r_rout_for (o : rop) (out : rout) : list Z :=
   end.
 
 Definition run_rops (cap : nat) (req : option shape_type) (st : rstate) (os : list rop) : prog (list Z) :=
-  x <-- r_calls req st (map (rcall_of cap) os) ;;
+  x <-- r_calls_mixed cap req st os ;;
   Ret (flat_map (fun p => r_rout_for (fst p) (snd p)) (combine os (fst x))).
+
 
 Definition decode_req (c : Z) : option (option shape_type) :=
   if c =? -1 then Some None else
